@@ -104,13 +104,15 @@ def run_many(jobs, procs=None):
     return _pool.map(run_one, jobs, chunksize=max(1, len(jobs) // (procs * 8)))
 
 
-def _replay_chunk(words):
-    from sim import chanlife
+def _replay_chunk(job):
+    import importlib
 
+    modname, words = job
+    mod = importlib.import_module(modname)
     out = []
     for w in words:
         try:
-            out.append(chanlife.replay(w))
+            out.append(mod.replay(w))
         except Exception:  # harness failure: report, never a verdict
             import traceback
 
@@ -118,8 +120,8 @@ def _replay_chunk(words):
     return out
 
 
-def run_chanlife(words, procs=None):
-    """replay ChanLife operation sequences on the real gateway pair, in the worker pool"""
+def run_chanlife(words, procs=None, module="sim.chanlife"):
+    """replay model operation sequences (ChanLife, StrConfig) on the real gateway pair, in the worker pool"""
     global _pool
     procs = procs or min(14, os.cpu_count() or 4)
     if _pool is None:
@@ -127,7 +129,7 @@ def run_chanlife(words, procs=None):
         _pool = ctx.Pool(procs, initializer=_quiet, maxtasksperchild=400)
     size = max(1, len(words) // (procs * 4))
     chunks = [words[i:i + size] for i in range(0, len(words), size)]
-    return [r for part in _pool.map(_replay_chunk, chunks, chunksize=1) for r in part]
+    return [r for part in _pool.map(_replay_chunk, [(module, c) for c in chunks], chunksize=1) for r in part]
 
 
 def close_pool():
